@@ -279,7 +279,9 @@ class load(DataStreamProcessor):
             if self.extract_missing_values:
                 it = self.missing_values_extractor(it)
             it = self.caster(descriptor, it)
-            if self.strip:
+            # stripping is for raw sources only: a data package (or a descriptor/iterators
+            # pair) carries typed values that must come back as they were written
+            if self.strip and self.load_dp is None and not isinstance(self.load_source, tuple):
                 it = self.stripper(it)
             if self.limit_rows:
                 it = self.limiter(it)
